@@ -300,6 +300,7 @@ pub fn run() -> Report {
                 world.add_key_twin(r, *variant);
             }
             let mut spec = RunSpec::new("bitcoin", c.cb).range(None, c.end);
+            spec.verbosity = (_i % 4) as u8;
             if c.hash_seed != 1 {
                 spec.env.push(("VERIF_DETRAND".into(), c.hash_seed.to_string()));
             }
